@@ -55,6 +55,7 @@ type EnvOp struct {
 	Svc     string     `json:"svc,omitempty"`
 	Prod    string     `json:"prod,omitempty"`
 	Suffix  *string    `json:"suffix,omitempty"`
+	SlowKMS int64      `json:"slowkms,omitempty"` // every KMS round trip of this operation takes this long (the virtual clock moves while the call is in flight)
 	RelFail *int       `json:"relfail,omitempty"` // the n-th WithBytesFunc of this operation returns its result together with a release error
 }
 
@@ -229,7 +230,7 @@ func (x *envExec) payload(n int) []byte {
 	if b, ok := x.payloads[n]; ok {
 		return b
 	}
-	sizes := []int{0, 1, 15, 16, 17, 33, 64, 257}
+	sizes := []int{0, 1, 4068, 15, 16, 17, 9000, 33, 64, 257} // 4068 and 9000: ciphertexts of a page and more
 	sz := sizes[n%len(sizes)]
 	b := make([]byte, 0, sz+12)
 	if n != 5 { // payload 5 is the empty payload
@@ -446,6 +447,11 @@ func (x *envExec) doInner(op EnvOp) (ob EnvObs) {
 	x.crypto.TakeRetained()
 	x.kmsSpy.TakeRetained()
 	x.sf.FailedNew = nil
+	x.kmsSpy.AfterCall = nil
+	if op.SlowKMS > 0 {
+		d := op.SlowKMS
+		x.kmsSpy.AfterCall = func() { x.now += d }
+	}
 	if op.RelFail != nil {
 		x.sf.ResetOp(*op.RelFail)
 	} else {
@@ -455,6 +461,7 @@ func (x *envExec) doInner(op EnvOp) (ob EnvObs) {
 	defer cancel()
 	x.faults.Cancel = cancel
 	var encRec *ae.DataRowRecord
+	var decRec *ae.DataRowRecord // the caller's record as it is AFTER a decrypt (leak scan: it must still hold ciphertext only)
 	func() {
 		defer func() {
 			if r := recover(); r != nil {
@@ -575,6 +582,9 @@ func (x *envExec) doInner(op EnvOp) (ob EnvObs) {
 			if !recEqual(&snap, &after) {
 				ob.Frame = "decrypt modified the caller's record"
 			}
+			if r.Key != nil {
+				decRec = &r
+			}
 			if err != nil {
 				ob.R = "err"
 				return
@@ -655,7 +665,11 @@ func (x *envExec) doInner(op EnvOp) (ob EnvObs) {
 		}
 	}
 	if x.scanLeak && (op.K == "encrypt" || op.K == "decrypt") {
-		x.leakScan(&ob, encRec, x.logger.Take())
+		scanRec := encRec
+		if scanRec == nil {
+			scanRec = decRec
+		}
+		x.leakScan(&ob, scanRec, x.logger.Take())
 	}
 	return ob
 }
